@@ -320,6 +320,11 @@ fn fail(inv: &'static str, path: &str, detail: String, facets: &[(&'static str, 
 /// per-build invariants.
 pub fn checked_build(ctx: &Ctx, spec: &NodeSpec) -> BuildObs {
     let root = ctx.world.root();
+    // the node's working directory exists by the time it runs (the runner creates it): the model
+    // must see the same tree, e.g. for inputs spelled `../g.lalrpop`
+    if !spec.cwd.is_empty() {
+        let _ = std::fs::create_dir_all(root.join(&spec.cwd));
+    }
     let out_dir_env = spec.env.iter().find(|(k, _)| k == "OUT_DIR").map(|(_, v)| v.replace("{ROOT}", &root.to_string_lossy()));
     let env = Env { root: &root, cwd_rel: &spec.cwd, out_dir_env };
     // resolve {ROOT} in the spec as the node runner will
